@@ -336,8 +336,9 @@ Qed.
 
 Lemma nodup_new_event os : NoDup (keys (new_event os)).
 Proof.
-  unfold new_event. apply nodup_apply_opts_of; [|constructor].
-  apply Forall_forall; intros o _. apply nodup_apply_opt.
+  unfold new_event. apply nodup_apply_opts_of.
+  - apply Forall_forall; intros o _. apply nodup_apply_opt.
+  - cbn. constructor; [intros []|constructor].
 Qed.
 
 (* ---- payload coherence of every event whose options touch the payload keys only
